@@ -120,6 +120,7 @@ SendPgn(ns, cfg, a, clk) ==
 (******************************* reception *********************************)
 OnCm(ns, cfg, prio, sa, da, d, clk) ==
     IF Len(d) < 12 THEN R(ns, <<>>)                \* too short: ignored
+    ELSE IF sa = GLOBAL THEN R(ns, <<>>)           \* 255 is not a source address (it would match our own BAM sessions)
     ELSE
     LET ctl == d[1] % 16
         sess == d[1] \div 16
